@@ -111,6 +111,62 @@ theorem segment_count (R : Nat) :
   simp only [Generated.C18.idsLo, h R]
   ring
 
+/-! ## session 3: the number of segments under exclusion -/
+
+/-- ids of ring `i` in the model of the aperture: `ringFirstId i … ringFirstId i + 6i − 1`, in walk order -/
+theorem ring_ids (i : Nat) :
+    (((List.range (6 * i)).zip (hexRing i)).map fun (p : Nat × Hex) => (ringFirstId i + p.1, p.2)).map Prod.fst
+      = List.range' (ringFirstId i) (6 * i) := by
+  rw [List.map_map]
+  have h : (Prod.fst ∘ fun (p : Nat × Hex) => (ringFirstId i + p.1, p.2)) = (fun n => ringFirstId i + n) ∘ Prod.fst := by
+    funext p; rfl
+  rw [h, ← List.map_map, List.map_fst_zip (by rw [List.length_range, length_hexRing]), List.range'_eq_map_range]
+
+/-- ids of rings `1 … R` concatenated: `1 … 3R(R+1)` with no gap and no repeat, for EVERY `R` -/
+theorem rings_ids (R : Nat) :
+    (((List.range R).map fun j =>
+      let i := j + 1
+      (List.range (6 * i)).zip (hexRing i) |>.map fun (p : Nat × Hex) => (ringFirstId i + p.1, p.2)).flatten).map Prod.fst
+      = List.range' 1 (3 * R * (R + 1)) := by
+  induction R with
+  | zero => simp
+  | succ R ih =>
+    rw [List.range_succ, List.map_append, List.flatten_append, List.map_append, ih]
+    simp only [List.map_cons, List.map_nil, List.flatten_cons, List.flatten_nil, List.append_nil]
+    rw [ring_ids]
+    have e1 : ringFirstId (R + 1) = 1 + 3 * R * (R + 1) := by
+      simp only [ringFirstId, Nat.add_sub_cancel]; ring
+    have e2 : 3 * (R + 1) * (R + 1 + 1) = 3 * R * (R + 1) + 6 * (R + 1) := by ring
+    rw [e1, e2, List.range'_append_1]
+
+/-- the model aperture (the one the driver op `hexap` runs against the real `segment_ids`) numbers its segments `0 … 3R(R+1)` -/
+theorem all_segment_ids (R : Nat) : (allSegments R).map Prod.fst = List.range (1 + 3 * R * (R + 1)) := by
+  simp only [allSegments, List.map_cons]
+  rw [rings_ids, List.range_eq_range', Nat.add_comm 1, List.range'_succ]
+
+/-- THE DOCUMENTED NUMBER OF SEGMENTS UNDER EXCLUSION, every ring count and every exclusion set (repeats and ids that do not
+exist allowed): kept + (existing ids named in `exclude`) = `1 + 3R(R+1)` -/
+theorem segments_after_exclusion (R : Nat) (ex : List Nat) :
+    (segments R ex).length + ((List.range (1 + 3 * R * (R + 1))).filter fun i => ex.contains i).length = 1 + 3 * R * (R + 1) := by
+  have h := all_segment_ids R
+  have hl : (allSegments R).length = 1 + 3 * R * (R + 1) := by
+    have := congrArg List.length h; simpa using this
+  rw [← h, List.filter_map, List.length_map]
+  simp only [segments]
+  have := List.length_eq_length_filter_add (l := allSegments R) (fun p => !ex.contains p.1)
+  rw [← hl, this]
+  congr 2
+  apply List.filter_congr
+  intro p _
+  simp
+/-- the ids that survive are exactly the non-excluded ones of `0 … 3R(R+1)`, in increasing order -/
+theorem segment_ids_after_exclusion (R : Nat) (ex : List Nat) :
+    (segments R ex).map Prod.fst = (List.range (1 + 3 * R * (R + 1))).filter fun i => !ex.contains i := by
+  rw [← all_segment_ids, List.filter_map]
+  rfl
+/-- two rings, centre and id 5 excluded, id 99 does not exist: 17 of 19 segments remain -/
+example : (segments 2 [0, 5, 99]).length = 17 := by decide
+
 /-! ## windows -/
 
 /-- the generated clamp always yields `0 ≤ lo ≤ hi ≤ n` (a valid, possibly empty slice) with at most `2s` samples,
